@@ -287,6 +287,15 @@ func (e *End) PendingInLocked() int {
 	return n
 }
 
+// PeekInLocked returns a copy of the queued, unread octets towards this end.
+func (e *End) PeekInLocked() []byte {
+	var out []byte
+	for _, s := range e.in.segs {
+		out = append(out, s...)
+	}
+	return out
+}
+
 func (e *End) Closed() bool {
 	e.hub.mu.Lock()
 	defer e.hub.mu.Unlock()
